@@ -7,8 +7,34 @@ verus! {
 broadcast use {axiom_string_ext, axiom_str_ext, axiom_str_of, axiom_vec_ext, axiom_vec_of, axiom_display_string, axiom_display_str};
 //@include spec/indexset.rs
 //@include units/fol_types.inc
+//@include spec/sem.rs
+//@include spec/quant_lemmas.rs
+//@include spec/fol_spec.rs
+//@include units/fol_lib.inc
 
 pub mod fol { pub use super::*; }
+
+impl AnnotatedFormula {
+//@fn src/syntax_tree/fol/sigma_0.rs :: impl AnnotatedFormula :: fn predicates
+//@ .ret r
+//@ .spec
+//@     ensures r@ == spec_preds(self.formula),
+//@end
+}
+
+pub proof fn lemma_seq_extend_contains_e<T>(s: Seq<T>, t: Seq<T>, y: T)
+    ensures seq_extend(s, t).contains(y) == (s.contains(y) || t.contains(y)),
+    decreases t.len(),
+{
+    if t.len() > 0 {
+        lemma_seq_insert_contains(s, t[0], y);
+        lemma_seq_extend_contains_e(seq_insert(s, t[0]), t.drop_first(), y);
+        let rest = t.drop_first();
+        if t.contains(y) { let i = choose|i: int| 0 <= i < t.len() && t[i] == y; if i > 0 { assert(rest[i - 1] == y); } }
+        if rest.contains(y) { let i = choose|i: int| 0 <= i < rest.len() && rest[i] == y; assert(t[i + 1] == y); }
+        if y == t[0] { assert(t.contains(y)); }
+    }
+}
 
 pub enum Either<L, R> { Left(L), Right(R) }
 
@@ -67,7 +93,53 @@ pub open spec fn spec_placeholders(es: Seq<UserGuideEntry>, n: int) -> Seq<Funct
     }
 }
 
+/// p is declared `input:` / `output:` in the user guide
+pub open spec fn declared_input(es: Seq<UserGuideEntry>, n: int, p: Predicate) -> bool { exists|i: int| 0 <= i < n && #[trigger] es[i] == UserGuideEntry::InputPredicate(p) }
+pub open spec fn declared_output(es: Seq<UserGuideEntry>, n: int, p: Predicate) -> bool { exists|i: int| 0 <= i < n && #[trigger] es[i] == UserGuideEntry::OutputPredicate(p) }
+pub open spec fn is_input(u: UserGuide, p: Predicate) -> bool { declared_input(u.entries@, u.entries@.len() as int, p) }
+pub open spec fn is_output(u: UserGuide, p: Predicate) -> bool { declared_output(u.entries@, u.entries@.len() as int, p) }
+
 impl UserGuide {
+//@fn src/syntax_tree/fol/sigma_0.rs :: impl UserGuide :: fn input_predicates
+//@ .ret r
+//@ .attr #[verifier::loop_isolation(false)]
+//@ .spec
+//@     ensures forall|p: Predicate| r@.contains(p) == is_input(*self, p),
+//@ .loop 1 as it
+//@     invariant
+//@         it.seq().len() == self.entries@.len(), forall|j: int| 0 <= j < self.entries@.len() ==> *it.seq()[j] == self.entries@[j],
+//@         forall|p: Predicate| result@.contains(p) == declared_input(self.entries@, it.index@ as int, p),
+//@ .hint before "if let UserGuideEntry::InputPredicate(p) = entry"
+//@     let ghost r0 = result@;
+//@     let ghost idx = it.index@ as int;
+//@     proof {
+//@         assert forall|x: Predicate, y: Predicate| #[trigger] seq_insert(r0, x).contains(y) == (r0.contains(y) || y == x) by { lemma_seq_insert_contains(r0, x, y); }
+//@         assert forall|q: Predicate| declared_input(self.entries@, idx + 1, q) == (declared_input(self.entries@, idx, q) || self.entries@[idx] == UserGuideEntry::InputPredicate(q)) by {
+//@             if declared_input(self.entries@, idx + 1, q) { let i = choose|i: int| 0 <= i < idx + 1 && #[trigger] self.entries@[i] == UserGuideEntry::InputPredicate(q); if i < idx { assert(declared_input(self.entries@, idx, q)); } }
+//@             if declared_input(self.entries@, idx, q) { let i = choose|i: int| 0 <= i < idx && #[trigger] self.entries@[i] == UserGuideEntry::InputPredicate(q); assert(0 <= i < idx + 1 && self.entries@[i] == UserGuideEntry::InputPredicate(q)); }
+//@         }
+//@     }
+//@end
+//@fn src/syntax_tree/fol/sigma_0.rs :: impl UserGuide :: fn output_predicates
+//@ .ret r
+//@ .attr #[verifier::loop_isolation(false)]
+//@ .spec
+//@     ensures forall|p: Predicate| r@.contains(p) == is_output(*self, p),
+//@ .loop 1 as it
+//@     invariant
+//@         it.seq().len() == self.entries@.len(), forall|j: int| 0 <= j < self.entries@.len() ==> *it.seq()[j] == self.entries@[j],
+//@         forall|p: Predicate| result@.contains(p) == declared_output(self.entries@, it.index@ as int, p),
+//@ .hint before "if let UserGuideEntry::OutputPredicate(p) = entry"
+//@     let ghost r0 = result@;
+//@     let ghost idx = it.index@ as int;
+//@     proof {
+//@         assert forall|x: Predicate, y: Predicate| #[trigger] seq_insert(r0, x).contains(y) == (r0.contains(y) || y == x) by { lemma_seq_insert_contains(r0, x, y); }
+//@         assert forall|q: Predicate| declared_output(self.entries@, idx + 1, q) == (declared_output(self.entries@, idx, q) || self.entries@[idx] == UserGuideEntry::OutputPredicate(q)) by {
+//@             if declared_output(self.entries@, idx + 1, q) { let i = choose|i: int| 0 <= i < idx + 1 && #[trigger] self.entries@[i] == UserGuideEntry::OutputPredicate(q); if i < idx { assert(declared_output(self.entries@, idx, q)); } }
+//@             if declared_output(self.entries@, idx, q) { let i = choose|i: int| 0 <= i < idx && #[trigger] self.entries@[i] == UserGuideEntry::OutputPredicate(q); assert(0 <= i < idx + 1 && self.entries@[i] == UserGuideEntry::OutputPredicate(q)); }
+//@         }
+//@     }
+//@end
 //@fn src/syntax_tree/fol/sigma_0.rs :: impl UserGuide :: fn placeholders
 //@ .ret r
 //@ .spec
@@ -86,6 +158,15 @@ pub proof fn lemma_seq_insert_contains<T>(s: Seq<T>, x: T, y: T)
         if s.contains(y) { let i = choose|i: int| 0 <= i < s.len() && s[i] == y; assert(r[i] == y); }
         if y == x { assert(r[s.len() as int] == y); }
     }
+}
+
+/// no assumption among the first n formulas mentions an output predicate
+pub open spec fn assumptions_free_of_output(u: UserGuide, fs: Seq<AnnotatedFormula>, n: int) -> bool {
+    forall|i: int, q: Predicate| 0 <= i < n && (#[trigger] fs[i]).role == Role::Assumption && #[trigger] spec_preds(fs[i].formula).contains(q) ==> !is_output(u, q)
+}
+/// every predicate of every assumption among the first n formulas is an extra input symbol or a declared input predicate
+pub open spec fn assumptions_input_only(u: UserGuide, extra: Seq<Predicate>, fs: Seq<AnnotatedFormula>, n: int) -> bool {
+    forall|i: int, q: Predicate| 0 <= i < n && (#[trigger] fs[i]).role == Role::Assumption && #[trigger] spec_preds(fs[i].formula).contains(q) ==> extra.contains(q) || is_input(u, q)
 }
 
 /// two of the first n placeholders have the same name
@@ -119,6 +200,92 @@ impl ExternalEquivalenceTask {
 //@         // C11: a non-tight program is refused unless --bypass-tightness, in which case it is accepted with a warning
 //@         r is Err <==> !spec_tight(*program) && !self.bypass_tightness,
 //@         r matches Ok(ww) ==> (ww.warnings@.len() > 0 <==> !spec_tight(*program)),
+//@end
+
+//@fn src/verifying/task/external_equivalence.rs :: impl ExternalEquivalenceTask :: fn ensure_input_and_output_predicates_are_disjoint
+//@ .ret r
+//@ .spec
+//@     // C11: refused iff some predicate is declared both input and output
+//@     ensures r is Ok <==> !(exists|p: Predicate| is_input(self.user_guide, p) && is_output(self.user_guide, p)),
+//@ .hint before "if intersection.is_empty()"
+//@     proof {
+//@         if intersection@.len() > 0 {
+//@             let p0 = intersection@[0];
+//@             assert(intersection@.contains(p0));
+//@             assert(is_input(self.user_guide, p0) && is_output(self.user_guide, p0));
+//@         }
+//@         if exists|p: Predicate| is_input(self.user_guide, p) && is_output(self.user_guide, p) {
+//@             let p = choose|p: Predicate| is_input(self.user_guide, p) && is_output(self.user_guide, p);
+//@             assert(intersection@.contains(p));
+//@         }
+//@     }
+//@end
+
+//@fn src/verifying/task/external_equivalence.rs :: impl ExternalEquivalenceTask :: fn ensure_specification_assumptions_do_not_contain_output_predicates
+//@ .ret r
+//@ .attr #[verifier::loop_isolation(false)]
+//@ .spec
+//@     // C11: refused iff some assumption of the specification mentions an output predicate
+//@     ensures r is Ok <==> assumptions_free_of_output(self.user_guide, specification.formulas@, specification.formulas@.len() as int),
+//@ .loop 1 as it
+//@     invariant
+//@         it.seq().len() == specification.formulas@.len(), forall|j: int| 0 <= j < specification.formulas@.len() ==> *it.seq()[j] == specification.formulas@[j],
+//@         assumptions_free_of_output(self.user_guide, specification.formulas@, it.index@ as int),
+//@ .loop 2 as it2
+//@     invariant
+//@         it2.seq() == preds, 0 <= it2.index@ <= preds.len(),
+//@         forall|x: Predicate| d23_0_out@.contains(x) ==> preds.contains(x) && is_output(self.user_guide, x),
+//@         forall|j: int| 0 <= j < it2.index@ && is_output(self.user_guide, #[trigger] preds[j]) ==> d23_0_out@.contains(preds[j]),
+//@ .hint before "let overlap: Vec<_> ="
+//@     let ghost preds = spec_preds(formula.formula);
+//@     let ghost fidx = it.index@ as int;
+//@ .hint before "if d23_0_keep"
+//@     let ghost o0 = d23_0_out@;
+//@     let ghost j0 = it2.index@ as int;
+//@ .hint after "d23_0_out.push(d23_0_x); }"
+//@     proof {
+//@         assert(d23_0_keep ==> d23_0_out@ == o0.push(preds[j0]));
+//@         assert forall|x: Predicate| d23_0_out@.contains(x) implies preds.contains(x) && is_output(self.user_guide, x) by {
+//@             if d23_0_keep { let q = choose|q: int| 0 <= q < d23_0_out@.len() && d23_0_out@[q] == x; if q < o0.len() { assert(o0[q] == x); assert(o0.contains(x)); } else { assert(x == preds[j0]); } }
+//@         }
+//@         assert forall|j: int| 0 <= j < j0 + 1 && is_output(self.user_guide, #[trigger] preds[j]) implies d23_0_out@.contains(preds[j]) by {
+//@             if j < j0 { assert(o0.contains(preds[j])); let q = choose|q: int| 0 <= q < o0.len() && o0[q] == preds[j]; assert(d23_0_out@[q] == preds[j]); }
+//@             else { assert(d23_0_out@[o0.len() as int] == preds[j0]); }
+//@         }
+//@     }
+//@ .hint before "if !overlap.is_empty()"
+//@     proof {
+//@         if overlap@.len() > 0 {
+//@             let q0 = overlap@[0];
+//@             assert(overlap@.contains(q0));
+//@             assert(preds.contains(q0) && is_output(self.user_guide, q0));
+//@             assert(specification.formulas@[fidx].role == Role::Assumption && spec_preds(specification.formulas@[fidx].formula).contains(q0));
+//@             assert(!assumptions_free_of_output(self.user_guide, specification.formulas@, specification.formulas@.len() as int));
+//@         }
+//@         if exists|q: Predicate| preds.contains(q) && is_output(self.user_guide, q) {
+//@             let q = choose|q: Predicate| preds.contains(q) && is_output(self.user_guide, q);
+//@             let j = choose|j: int| 0 <= j < preds.len() && preds[j] == q;
+//@             assert(overlap@.contains(preds[j]));
+//@         }
+//@     }
+//@end
+
+//@fn src/verifying/task/external_equivalence.rs :: impl ExternalEquivalenceTask :: fn ensure_assumptions_only_contain_input_symbols
+//@ .ret r
+//@ .attr #[verifier::loop_isolation(false)]
+//@ .spec
+//@     // C11: refused iff some assumption mentions a predicate that is neither one of the given extra input symbols nor declared input
+//@     ensures r is Ok <==> assumptions_input_only(self.user_guide, program_input_symbols@, formulas@, formulas@.len() as int),
+//@ .loop 1 as it
+//@     invariant
+//@         it.seq().len() == formulas@.len(), forall|j: int| 0 <= j < formulas@.len() ==> *it.seq()[j] == formulas@[j],
+//@         assumptions_input_only(self.user_guide, program_input_symbols@, formulas@, it.index@ as int),
+//@ .hint after "let predicates = formula.formula.predicates();"
+//@     proof {
+//@         assert forall|a: Seq<Predicate>, b: Seq<Predicate>, x: Predicate| #[trigger] seq_extend(a, b).contains(x) == (a.contains(x) || b.contains(x)) by { lemma_seq_extend_contains_e(a, b, x); }
+//@         assert forall|x: Predicate| input_symbols@.contains(x) == (program_input_symbols@.contains(x) || is_input(self.user_guide, x)) by {}
+//@         assert forall|i: int| 0 <= i < predicates@.len() implies predicates@.contains(#[trigger] predicates@[i]) by {}
+//@     }
 //@end
 
 //@fn src/verifying/task/external_equivalence.rs :: impl ExternalEquivalenceTask :: fn ensure_valid_formula_representation
